@@ -89,6 +89,26 @@ Theorem C04_merges_indistinguishable : forall fuel n s1 s2 i, i < n -> only i s1
 Proof. exact merges_indistinguishable. Qed.
 Print Assumptions C04_merges_indistinguishable.
 
+(* the same with the histories given: hists[i] = the operations of engine i; is_merge n hists sched says that sched is
+   one of their merges (the operations of engine i appear in sched in their order).  EVERY merge shows engine i the
+   observations of its history run alone, hence the same as the merge "back to back" (b2b: the whole history of engine
+   0, then the whole history of engine 1, ...), which is a merge too. *)
+Theorem C04_every_merge : forall fuel n hists sched, is_merge n hists sched ->
+  forall i, i < n ->
+  proj i (snd (wrun fuel (init_world n) sched)) = snd (erun n i fuel (nth i hists []) init_engine []).
+Proof. exact every_merge. Qed.
+Print Assumptions C04_every_merge.
+
+Theorem C04_back_to_back_is_merge : forall n hists, is_merge n hists (b2b 0 hists).
+Proof. exact b2b_is_merge. Qed.
+Print Assumptions C04_back_to_back_is_merge.
+
+Theorem C04_merge_eq_back_to_back : forall fuel n hists sched, is_merge n hists sched ->
+  forall i, i < n ->
+  proj i (snd (wrun fuel (init_world n) sched)) = proj i (snd (wrun fuel (init_world n) (b2b 0 hists))).
+Proof. exact merge_eq_back_to_back. Qed.
+Print Assumptions C04_merge_eq_back_to_back.
+
 (* 3. same_engine_disjoint, engine level: any number of generators of ONE engine, suspended simultaneously, over
       pairwise disjoint sets of cells PQ q (sinv: the generator in slot q holds terms over PQ q and allocates in
       PQ q; heap values of PQ q cells are over PQ q).  For EVERY sequence of next / close / drain operations on
